@@ -181,4 +181,18 @@ def effOfAtom : Atom → Option Eff
   | .other k => some (.other k)
   | .focus _ => none
 
+
+/-- The explicit trace of a dispatch when no answer contains a focus command: walk the route;
+the `k`-th handler call overall answers `h w ev ph k`; its non-batch commands take effect once, in
+order; stop after the first answer that contains `consume`. -/
+def specRun (h : Id → Ev → Phase → Nat → Cmd) (ev : Ev) : Nat → List (Id × Phase) → List Entry
+  | _, [] => []
+  | k, (w, ph) :: r =>
+    .call w ev ph :: (((h w ev ph k).flatten.filterMap effOfAtom).map Entry.eff ++
+      (if (h w ev ph k).flatten.contains .consume then [] else specRun h ev (k + 1) r))
+
+/-- The calls of a trace. -/
+def callsOf (tr : List Entry) : List (Id × Ev × Phase) :=
+  tr.filterMap fun | .call w ev ph => some (w, ev, ph) | _ => none
+
 end VaxisModel.Spec.Routing
